@@ -1,0 +1,80 @@
+//go:build verif
+
+package compiler
+
+import (
+	"bytes"
+	"fmt"
+	"io"
+	"os"
+	"path/filepath"
+
+	"github.com/DDP-Projekt/Kompilierer/src/ast"
+	"github.com/DDP-Projekt/Kompilierer/src/compiler/llvm"
+	"github.com/DDP-Projekt/Kompilierer/src/parser"
+)
+
+// VerifCompileSeparate compiles the module given by options and every module it imports
+// into an object file of its own (mod_<n>.o in outDir, the main module first):
+// the modules are kept separate instead of being linked into one LLVM module.
+// The list definitions are linked into the main module if options.LinkInListDefs is set.
+func VerifCompileSeparate(options Options, outDir string) (objs []string, result *Result, err error) {
+	defer panic_wrapper(&err)
+	options.To = io.Discard
+	if err = validateOptions(&options); err != nil {
+		return nil, nil, err
+	}
+	mainMod, err := parser.Parse(options.ToParserOptions())
+	if err != nil {
+		return nil, nil, fmt.Errorf("Fehler beim Parsen: %w", err)
+	}
+	llctx, err := newllvmContext()
+	if err != nil {
+		return nil, nil, err
+	}
+	defer llctx.Dispose()
+
+	irs := map[string]*bytes.Buffer{}
+	order := []string{}
+	deps, err := compileWithImports(mainMod, func(m *ast.Module) io.Writer {
+		irs[m.FileName] = &bytes.Buffer{}
+		order = append(order, m.FileName)
+		return irs[m.FileName]
+	}, options.ErrorHandler, &llctx.llvmTarget, options.OptimizationLevel)
+	if err != nil {
+		return nil, nil, err
+	}
+	for i, name := range order {
+		mod, err := llctx.parseIR(irs[name].Bytes())
+		if err != nil {
+			return nil, nil, err
+		}
+		if i == 0 && options.LinkInListDefs {
+			listDefs, err := llctx.parseListDefs()
+			if err != nil {
+				mod.Dispose()
+				return nil, nil, err
+			}
+			if err := llvmLinkAllModules(mod, []llvm.Module{listDefs}); err != nil {
+				return nil, nil, err
+			}
+		}
+		if options.OptimizationLevel >= 1 {
+			llctx.optimizeModule(mod)
+		}
+		path := filepath.Join(outDir, fmt.Sprintf("mod_%d.o", i))
+		f, err := os.Create(path)
+		if err != nil {
+			mod.Dispose()
+			return nil, nil, err
+		}
+		_, err = llctx.compileModule(mod, llvm.ObjectFile, f)
+		f.Close()
+		mod.Dispose()
+		if err != nil {
+			return nil, nil, err
+		}
+		objs = append(objs, path)
+	}
+	return objs, &Result{Dependencies: deps}, nil
+}
